@@ -3,6 +3,10 @@ package props
 import (
 	"bytes"
 	"fmt"
+	"math/rand"
+	"runtime"
+	"sync"
+	"sync/atomic"
 
 	"nitroverif/internal/rt"
 )
@@ -20,6 +24,35 @@ func runC09(c *rt.C) {
 	targets := h.seekTargets()
 	exhaustive := c.Index%4 == 0 // exhaustive "Refresh at every position x rate" for small snapshots
 	nOps := 300
+	// every 4th case: a churn goroutine keeps inserting and (same-epoch) deleting newer versions of the
+	// keys while the cursor programs run, so invisible versions appear and are physically unlinked
+	// under the iterators; the oracle (frozen copy of each open snapshot) is unchanged
+	churn := c.Index%4 == 2
+	var stopChurn int32
+	var churnWG sync.WaitGroup
+	if churn {
+		churnWG.Add(1)
+		go func() {
+			defer churnWG.Done()
+			cr := rand.New(rand.NewSource(c.Seed ^ 0x5eed))
+			w := h.Writers[0]
+			for n := 0; atomic.LoadInt32(&stopChurn) == 0 && n < 200000; n++ {
+				kid := cr.Intn(nKeys)
+				if cr.Intn(2) == 0 {
+					w.Delete(db.Item(kid, "x"))
+				} else {
+					w.Put2(db.Item(kid, fmt.Sprintf("c%d", n)))
+				}
+				if n%8 == 0 {
+					runtime.Gosched()
+				}
+			}
+		}()
+	}
+	defer func() {
+		atomic.StoreInt32(&stopChurn, 1)
+		churnWG.Wait()
+	}()
 	for si, hs := range h.Snaps {
 		if c.Failed() {
 			break
@@ -107,7 +140,7 @@ func runC09(c *rt.C) {
 			case x < 40:
 				it.Refresh()
 				trace = append(trace, "Refresh")
-				c.Sig("refresh/valid=%v/rate=%d/maxv=%d", idx < len(hs.Want), min(rate, 4), min(maxv, 4))
+				c.Sig("refresh/valid=%v/rate=%d/maxv=%d/churn=%v", idx < len(hs.Want), min(rate, 4), min(maxv, 4), churn)
 			case x < 46:
 				rate = pick(r, 0, 1, 2, 3, 5, 64)
 				it.SetRefreshRate(rate)
@@ -117,7 +150,7 @@ func runC09(c *rt.C) {
 					it.Next()
 					idx++
 					trace = append(trace, "Next")
-					c.Sig("next/rate=%d/maxv=%d", min(rate, 4), min(maxv, 4))
+					c.Sig("next/rate=%d/maxv=%d/churn=%v", min(rate, 4), min(maxv, 4), churn)
 				} else {
 					idx = -1
 					continue
@@ -143,6 +176,8 @@ func runC09(c *rt.C) {
 		}
 	}
 	c.Count("snapshots", int64(len(h.Snaps)))
+	atomic.StoreInt32(&stopChurn, 1)
+	churnWG.Wait()
 	if !c.Failed() {
 		h.CloseAll()
 		db.N.Close()
@@ -165,9 +200,9 @@ func init() {
 	rt.Register(&rt.Prop{
 		ID: "C09", Level: "exploration",
 		Technique: "runtime monitoring: reference cursor over the frozen model copy compared after every iterator call",
-		Rule: "each case builds a seeded multi-version history (3-40 keys, 3-8 epochs, ~60% of snapshots kept open so invisible older/newer versions stay physically present) and drives, on every open snapshot, random sequences of SeekFirst/Seek(present|gap|below-min|above-max)/Next/Refresh/SetRefreshRate{0,1,2,3,5,64}; every 4th case enumerates 'explicit Refresh at each position x refresh rate {0,1,2,3}' for all snapshots of <=12 items. " +
+		Rule: "each case builds a seeded multi-version history (3-40 keys, 3-8 epochs, ~60% of snapshots kept open so invisible older/newer versions stay physically present) and drives, on every open snapshot, random sequences of SeekFirst/Seek(present|gap|below-min|above-max)/Next/Refresh/SetRefreshRate{0,1,2,3,5,64}; every 4th case enumerates 'explicit Refresh at each position x refresh rate {0,1,2,3}' for all snapshots of <=12 items; every other 4th case runs the cursor programs while a churn goroutine inserts and same-epoch-deletes newer versions of the keys. " +
 			"evaluations = iterator calls (or enumerated scans) checked; distinct = (operation, seek class or position class, refresh rate, max physical versions per key) tuples",
-		Assumptions: []string{"history is built by one goroutine; no writer runs during the cursor programs (concurrent modification is C01/C04's workload)", "Next is not called on an invalid iterator"},
+		Assumptions: []string{"history is built by one goroutine; in every 4th case one churn goroutine (owning its writer) mutates the database while the cursor programs run on the already created snapshots", "Next is not called on an invalid iterator"},
 		Cases: func(t string) int {
 			if t == "thorough" {
 				return 6000
